@@ -68,6 +68,10 @@ func (manager *localManager) AuthenticateUser(UID []byte) (int64, int64, error) 
 	if expiryTime < manager.world.Now().Unix() {
 		return 0, 0, ErrUserExpired
 	}
+	// a rate limiter cannot be built for a rate that is not positive
+	if upRate <= 0 || downRate <= 0 {
+		return 0, 0, ErrNoRate
+	}
 
 	return upRate, downRate, nil
 }
